@@ -621,9 +621,9 @@ let wake_one_recv s =
     let (f, w) = p in
     (match getF f s with
      | Some x ->
-       wake w
-         (with_arq (remove_first f s.arq)
-           (setF f (set_state Success x) (mark_bad (negb x.f_live) s)))
+       mark_bad (negb x.f_live)
+         (wake w
+           (with_arq (remove_first f s.arq) (setF f (set_state Success x) s)))
      | None -> s)
   | None -> s
 
@@ -635,9 +635,9 @@ let wake_one_send s =
     let (f, w) = p in
     (match getF f s with
      | Some x ->
-       wake w
-         (with_asq (remove_first f s.asq)
-           (setF f (set_state Success x) (mark_bad (negb x.f_live) s)))
+       mark_bad (negb x.f_live)
+         (wake w
+           (with_asq (remove_first f s.asq) (setF f (set_state Success x) s)))
      | None -> s)
   | None -> s
 
@@ -652,8 +652,8 @@ let rec mark_all new0 l s =
      | Some x ->
        if is_waiting x.f_state
        then mark_all new0 t
-              (wake w
-                (setF f (set_state new0 x) (mark_bad (negb x.f_live) s)))
+              (mark_bad (negb x.f_live)
+                (wake w (setF f (set_state new0 x) s)))
        else mark_all new0 t s
      | None -> mark_all new0 t s)
 
@@ -750,9 +750,8 @@ let close_rx s =
                 (match getF f s0 with
                  | Some x ->
                    if is_waiting x.f_state
-                   then wake w
-                          (setF f (set_state Success x)
-                            (mark_bad (negb x.f_live) s0))
+                   then mark_bad (negb x.f_live)
+                          (wake w (setF f (set_state Success x) s0))
                    else s0
                  | None -> s0)))
 
@@ -816,7 +815,7 @@ let handle_closed h s =
 let send_try f w x s =
   match x.f_item with
   | Some v ->
-    let (s0, t) = try_send_core v s in
+    let (s0, t) = try_send_core v (setF f (set_item None x) s) in
     (match t with
      | TsOk ->
        ((setF f (set_done (set_reg false (set_item None x))) s0), RReadyOk)
